@@ -5,9 +5,12 @@ import (
 	"encoding/base64"
 	"encoding/json"
 	"fmt"
+	"net/http"
+	"net/http/httptest"
 	"os"
 	"path/filepath"
 	"strings"
+	"sync"
 	"testing"
 	"time"
 
@@ -398,6 +401,9 @@ func persistCurrent(c *Case) {
 const c01Watchdog = 30 * time.Second
 
 func checkC01(c *Case) (*Violation, caseInfo) {
+	if c.Kind == "url" {
+		return checkC01URL(c)
+	}
 	var info caseInfo
 	var ex c01Extra
 	c.GetExtra(&ex)
@@ -636,3 +642,113 @@ func genC01Pager(t *rapid.T) *Case {
 }
 
 func TestC01Pager(t *testing.T) { runProp(t, genC01Pager, checkC01) }
+
+// ----- fifth layer: ApplyForURL against a loopback server -----------------------------------------
+
+type c01URLExtra struct {
+	Layer       string `json:"layer"` // "url"
+	Bytes       string `json:"bytes_b64"`
+	ContentType string `json:"content_type"`
+	Status      int    `json:"status"`
+	Target      string `json:"target"` // "" = the loopback page, otherwise a literal URL handed to ApplyForURL
+}
+
+var (
+	c01SrvOnce sync.Once
+	c01Srv     *httptest.Server
+	c01SrvErr  error
+	c01Pages   sync.Map
+)
+
+type c01Served struct {
+	body   []byte
+	ctype  string
+	status int
+}
+
+func c01Server() (*httptest.Server, error) {
+	c01SrvOnce.Do(func() {
+		defer func() {
+			if r := recover(); r != nil {
+				c01SrvErr = fmt.Errorf("cannot listen on loopback: %v", r)
+			}
+		}()
+		c01Srv = httptest.NewServer(http.HandlerFunc(func(w http.ResponseWriter, r *http.Request) {
+			v, ok := c01Pages.Load(r.URL.Path)
+			if !ok {
+				http.NotFound(w, r)
+				return
+			}
+			p := v.(c01Served)
+			if p.ctype != "" {
+				w.Header().Set("Content-Type", p.ctype)
+			}
+			if p.status == 302 {
+				w.Header().Set("Location", "/missing")
+			}
+			w.WriteHeader(p.status)
+			w.Write(p.body)
+		}))
+	})
+	return c01Srv, c01SrvErr
+}
+
+func genC01URL(t *rapid.T) *Case {
+	b := genC01Bytes(t)
+	var bx c01Extra
+	b.GetExtra(&bx)
+	ex := c01URLExtra{Layer: "url", Bytes: bx.Bytes,
+		ContentType: rapid.SampledFrom([]string{"text/html", "text/html; charset=utf-8", "text/html; charset=shift_jis", "TEXT/HTML", "application/xhtml+xml", "application/json", "", "text/plain", "text/html;charset=bogus"}).Draw(t, "ctype"),
+		Status:      rapid.SampledFrom([]int{200, 200, 200, 404, 500, 302, 204}).Draw(t, "status"),
+		Target:      rapid.SampledFrom([]string{"", "", "", "", "relative/path", "", "http://[::1", "http://127.0.0.1:1/x", "mailto:x@y", "/rooted", "http://", "javascript:void(0)", "file:///etc/passwd"}).Draw(t, "target"),
+	}
+	c := &Case{Property: "C01", Kind: "url", Opts: b.Opts}
+	c.SetExtra(ex)
+	return c
+}
+
+func checkC01URL(c *Case) (*Violation, caseInfo) {
+	var info caseInfo
+	var ex c01URLExtra
+	c.GetExtra(&ex)
+	persistCurrent(c)
+	srv, err := c01Server()
+	if err != nil || srv == nil {
+		info.Skip = "no-loopback"
+		return nil, info
+	}
+	data, derr := base64.StdEncoding.DecodeString(ex.Bytes)
+	if derr != nil {
+		info.Skip = "bad-base64"
+		return nil, info
+	}
+	path := "/p/" + shortHash(ex.Bytes+ex.ContentType+fmt.Sprint(ex.Status))
+	status := ex.Status
+	if status == 0 {
+		status = 200
+	}
+	c01Pages.Store(path, c01Served{data, ex.ContentType, status})
+	target := ex.Target
+	if target == "" {
+		target = srv.URL + path
+	}
+	opts := c.Opts.Build()
+	out := guarded(c01Watchdog, func() (*distiller.Result, error) { return distiller.ApplyForURL(target, 5*time.Second, opts) })
+	info.Classes = append(info.Classes, "root:url", fmt.Sprintf("url-status:%d", status))
+	var viol *Violation
+	switch {
+	case out.Hung:
+		viol = violationf("C01 hang root=url", "ApplyForURL did not return within %v", c01Watchdog)
+	case out.Panicked:
+		viol = violationf("C01 panic "+firstRepoFrame(out.Stack)+" "+panicClass(out.PanicVal), "panic in ApplyForURL(%q): %s\n%s", target, out.PanicVal, truncate(out.Stack, 3000))
+	case out.Err != nil:
+		info.Classes = append(info.Classes, "returned-error")
+	case out.Res == nil || out.Res.Node == nil || out.Res.Node.Type != html.ElementNode || out.Res.Node.Data != "div":
+		viol = violationf("C01 malformed-result root=url", "ApplyForURL returned neither an error nor a result with a div content node")
+	default:
+		info.NonTrivial = out.Res.WordCount > 0
+	}
+	return viol, info
+}
+
+func TestC01URL(t *testing.T) { runProp(t, genC01URL, checkC01URL) }
